@@ -1,6 +1,7 @@
 package vc
 
 import (
+	"os"
 	"fmt"
 	"go/ast"
 	"go/constant"
@@ -593,7 +594,7 @@ func (x *Exec) binop(op token.Token, l, r Term, resT, rT types.Type, env *Env, r
 	default:
 		unsupported("binary operator %s", op)
 	}
-	if res.Sort == SInt && !x.termMode && x.cx != nil && x.cx.fc != nil && x.cx.fc.Flags["overflow"] && (op == token.ADD || op == token.SUB || op == token.MUL) {
+	if res.Sort == SInt && !x.termMode && x.cx != nil && x.cx.fc != nil && (x.cx.fc.Flags["overflow"] || os.Getenv("GOCV_OVERFLOW") != "") && (op == token.ADD || op == token.SUB || op == token.MUL) {
 		// flags overflow: int/int64 arithmetic of this unit is checked against the 64-bit range instead of being
 		// assumed mathematical (assumption A1 is discharged for the unit)
 		if b, ok := resT.Underlying().(*types.Basic); ok && (b.Kind() == types.Int || b.Kind() == types.Int64 || b.Kind() == types.UntypedInt) {
